@@ -19,6 +19,8 @@ func FormatPrint(prog []Node, srcVariant Variant) string {
 type fprinter struct {
 	sb  strings.Builder
 	src Variant
+
+	elName string // name of the element whose attributes are being printed
 }
 
 func (f *fprinter) indent(level int, ss ...string) {
@@ -84,6 +86,10 @@ func (f *fprinter) attr(a Attr, level int) {
 		f.indent(level, "class={ env.K(", num(a.E), ") }")
 	case "class2":
 		f.indent(level, "class={ env.K(1), env.K(2) }")
+	case "url":
+		f.indent(level, "href={ ", URLExpr(f.elName, a.U), " }")
+	case "style":
+		f.indent(level, "style={ env.T", num(a.E), "() }")
 	case "cssclass":
 		f.indent(level, "class={ boxed() }")
 	case "scriptcall":
@@ -111,6 +117,7 @@ func (f *fprinter) attr(a Attr, level int) {
 // openTag writes `<name attrs` and returns the indentation of the closing angle bracket.
 func (f *fprinter) openTag(n Node, level int) int {
 	f.indent(level, "<", n.Name)
+	f.elName = n.Name
 	indentAttrs := len(n.Attrs) > 0 && (f.src == 2 || hasCond(n.Attrs))
 	for _, a := range n.Attrs {
 		if indentAttrs {
